@@ -1,10 +1,10 @@
 package worker
 
 import (
-	"reflect"
 	"encoding/json"
 	"fmt"
 	"os"
+	"reflect"
 	"strings"
 
 	"vsim/plan"
@@ -383,11 +383,60 @@ func genC20(p *plan.Plan, r *plan.Rng, tier string) {
 	}
 }
 
+// hasWideObject: does the text contain an object with more than one member
+// (or is it not parseable, in which case nothing is encoded anyway: false).
+func hasWideObject(doc []byte) bool {
+	var v interface{}
+	if json.Unmarshal(doc, &v) != nil {
+		return false
+	}
+	var walk func(x interface{}) bool
+	walk = func(x interface{}) bool {
+		switch t := x.(type) {
+		case map[string]interface{}:
+			if len(t) > 1 {
+				return true
+			}
+			for _, e := range t {
+				if walk(e) {
+					return true
+				}
+			}
+		case []interface{}:
+			for _, e := range t {
+				if walk(e) {
+					return true
+				}
+			}
+		}
+		return false
+	}
+	return walk(v)
+}
+
 // asTasks turns a sessions plan into a concurrent one: every session is a
 // task; the schedule is drawn from the plan's random stream.
 func asTasks(p *plan.Plan, r *plan.Rng) {
 	p.Tasks = true
 	p.Config.SmallMaps = true
+	// go-json walks a Go map in Go's (random) iteration order before it sorts
+	// the entries: a map with more than one entry makes the order in which a
+	// task passes yield sites differ from run to run. Scheduled plans therefore
+	// use maps with at most one entry (SmallMaps), and big values are slices.
+	for si := range p.Sessions {
+		for k := range p.Sessions[si].Steps {
+			st := &p.Sessions[si].Steps[k]
+			if hasOpt(st, "big") && strings.HasPrefix(st.T, "Map") {
+				st.T = "SliceInt"
+			}
+			// HTMLEscape decodes into interface{} and encodes again: objects
+			// become Go maps. With more than one member somewhere the step is
+			// turned into Compact (a scanner, no maps).
+			if st.Op == "htmlescape" && hasWideObject(st.Doc) {
+				st.Op = "compact"
+			}
+		}
+	}
 	p.Order = nil
 	if len(p.Sessions) > 26 {
 		p.Sessions = p.Sessions[:26]
